@@ -84,11 +84,16 @@ PROPS = {
     },
     "C23": {
         "level": "exploration",
+        "frame": ["rngreads"],
         "explanation": "bounded contracts on the real random routines: a seeded Generator / RandomState array is one realization -- "
-                       "recomputing, every derived program (slice, rechunk, transpose, elementwise, reduction, fused), either compute order and "
-                       "rebuilding from the same seed give the same values; executing a graph does not advance generators stored in it and "
-                       "the next draw from the same generator differs. Nothing is proved: the property is about mutable generator state "
-                       "consumed across a history of calls, which the function-level VC generator does not model",
+                       "recomputing, every derived program (slice, rechunk, transpose, elementwise, reduction, fused), either compute order, "
+                       "scalar / NumPy-array / dask-array distribution parameters (whose rewrites re-create the node), pickle and deepcopy "
+                       "round trips and rebuilding from the same seed give the same values; later draws do not depend on earlier computes; "
+                       "executing a graph does not advance generators stored in it and the next draw from the same generator differs. A "
+                       "syntactic frame analysis (L3, for all inputs) shows the part function contracts can reach: inside the random node "
+                       "classes the generator operand is read only through copy.deepcopy, and every construction site hands the node a "
+                       "state of its own, so a node is a function of its operands however often it is re-created. The value clauses are "
+                       "bounded: nothing about the realized numbers is proved",
     },
     "C26": {
         "level": "other",
